@@ -579,8 +579,11 @@ where
             let mut buffer = vec![0; want_bytes];
             let n = self.file.read(&mut buffer)?;
             assert!(n <= left);
-            // Can't get EOF here.
-            assert_ne!(n, 0);
+            if n == 0 {
+                // The data is shorter than its size said, for example the data
+                // member of a truncated archive.
+                return Err(Error::msg("sigmf data ended before its announced size"));
+            }
             self.left -= n as u64;
             self.buf.extend(&buffer[..n]);
         }
